@@ -771,3 +771,367 @@ Proof.
   - destruct (ai_res a); [discriminate|congruence].
   - intros p Hp. rewrite forallb_forall in H1. apply Z.leb_le. auto.
 Qed.
+
+Lemma alloc_objs_cons d k la oc : alloc_objs d k la = Some oc -> forall o, In o oc -> q_cons o = co_uuid k.
+Proof.
+  destruct la as [|a la]; cbn [alloc_objs].
+  - intros [= <-] o Ho. apply wipe_list_in in Ho. destruct Ho as (kk & a & r & _ & _ & _ & _ & ->). reflexivity.
+  - intros H o Ho. eapply new_allocs_in in H; eauto. tauto.
+Qed.
+
+Lemma existsb_cons_au al x : existsb (fun a => a_cons a =? x) al = true <-> In x (map a_cons al).
+Proof.
+  rewrite existsb_exists, in_map_iff. split; intros [a [H1 H2]]; exists a.
+  - apply Z.eqb_eq in H2. auto.
+  - split; auto. apply Z.eqb_eq; auto.
+Qed.
+
+Lemma tc_In objs x : In x (tc objs) <->
+  In x (map q_cons objs) /\ ~ In x (map q_cons (filter (fun a => 0 <? q_amt a) objs)).
+Proof.
+  unfold tc. rewrite filter_In, dedup_In, negb_true_iff, memZ_nIn. tauto.
+Qed.
+
+Lemma keepc_iff objs al x : keepc objs al x = true <-> (In x (tc objs) -> In x (map a_cons al)).
+Proof.
+  unfold keepc. rewrite negb_true_iff, andb_false_iff, negb_false_iff, memZ_nIn, existsb_cons_au.
+  split; [tauto|]. intros H. destruct (memZ x (tc objs)) eqn:E.
+  - apply memZ_In in E. auto.
+  - apply memZ_nIn in E. auto.
+Qed.
+
+Lemma sa_allocs_au al objs x : In x (map a_cons (sa_allocs al objs)) <->
+  (In x (map a_cons al) /\ ~ In x (map q_cons objs)) \/
+  In x (map q_cons (filter (fun a => negb (q_amt a =? 0)) objs)).
+Proof.
+  unfold sa_allocs. rewrite map_app, in_app_iff, map_map. cbn [aq a_cons].
+  assert (E : In x (map a_cons (filter (fun a => negb (memZ (a_cons a) (map q_cons objs))) al)) <->
+              In x (map a_cons al) /\ ~ In x (map q_cons objs)).
+  { split.
+    - intros H. apply in_map_iff in H. destruct H as [a [<- H]]. apply filter_In in H. destruct H as [H1 H2].
+      apply negb_true_iff, memZ_nIn in H2. split; auto. apply in_map; auto.
+    - intros [H N]. apply in_map_iff in H. destruct H as [a [<- H]]. apply in_map. apply filter_In. split; auto.
+      apply negb_true_iff, memZ_nIn. auto. }
+  rewrite E. tauto.
+Qed.
+
+(* ================================================================ the common shape of PUT / POST / reshape *)
+Definition post_core (cf : cfg) (d : db) (v : Z) (l : list cons_in)
+           (txn : db -> list areq -> result db) (ef : exn -> resp) : db * resp :=
+  match inspect_consumers cf v d [] l with
+  | (d1, None) => (d1, err 409 C_CONCURRENT)
+  | (d1, Some ks) =>
+      match alloc_list d1 ks l with
+      | None => (delete_created d1 ks, err 400 C_DEFAULT)
+      | Some objs =>
+          match txn (fold_left update_consumer ks d1) objs with
+          | Ok d2 => (delete_created d2 (empty_created ks l), ok 204)
+          | Err e => (delete_created d1 ks, ef e)
+          end
+      end
+  end.
+
+Lemma h_alloc_put_core cf d v c : h_alloc_put cf d v c = post_core cf d v [c] set_allocations alloc_err.
+Proof.
+  unfold h_alloc_put, post_core. cbn [inspect_consumers].
+  destruct (ensure_consumer cf v d c) as [d1 [k|]].
+  - cbn [rev app alloc_list fold_left].
+    destruct (alloc_objs d1 k (ci_allocs c)) as [objs|]; [|reflexivity].
+    rewrite app_nil_r. reflexivity.
+  - rewrite delete_created_nil. reflexivity.
+Qed.
+
+Lemma chain_undo cf v d l ks dm dm' ks' :
+  chain cf v d l ks dm -> ac dm' = ac dm -> (forall k, In k ks' <-> In k ks) ->
+  ac (delete_created dm' ks') = ac d.
+Proof.
+  intros Hc [= A C] I.
+  destruct (chain_facts _ _ _ _ _ _ Hc) as (A1 & _ & _ & _ & _ & (extra & X1 & X1') & N1 & _).
+  unfold ac. f_equal.
+  - cbn. congruence.
+  - eapply delete_created_undo with (extra := extra).
+    + congruence.
+    + intros r Hr. destruct (X1' r Hr) as [k [K1 K2]]. exists k. split; auto. apply I; auto.
+    + intros k Hk. apply N1. apply I; auto.
+Qed.
+
+Section Core.
+Variables (cf : cfg) (v : Z) (d : db) (l : list cons_in) (ks : list cobj) (d1 : db) (objs : list areq) (d2 : db).
+Hypothesis CI : ConsIff d.
+Hypothesis RI0 : RI d.
+Hypothesis WF : cons_list_wf l = true.
+Hypothesis Hc : chain cf v d l ks d1.
+Hypothesis Hal : alloc_list d1 ks l = Some objs.
+Hypothesis Hsa : sa_spec (fold_left update_consumer ks d1) objs d2.
+
+Lemma post_success : ConsIff (delete_created d2 (empty_created ks l)).
+Proof.
+  destruct (cons_list_wf_facts _ WF) as [ND WFa].
+  destruct (chain_facts _ _ _ _ _ _ Hc) as (A1 & R1 & L1 & M1 & Q1 & (extra & X1 & X1') & N1 & F1).
+  pose proof (chain_notcreated _ _ _ _ _ _ Hc ND) as NC.
+  destruct (alloc_list_facts _ _ _ _ L1 Hal) as [AL1 AL2].
+  destruct (fold_update_basic ks d1) as (A0 & R0 & C0).
+  destruct Hsa as [SA [cl [CL1 CL2]]].
+  set (EC := map co_uuid (filter co_created (empty_created ks l))).
+  set (Q := map q_cons objs).
+  set (WA := map q_cons (filter (fun a => 0 <? q_amt a) objs)).
+  set (Pos := map q_cons (filter (fun a => negb (q_amt a =? 0)) objs)).
+  set (U := map ci_uuid l).
+  pose proof (proj1 (ConsIff_alt d) CI) as CI'.
+  apply ConsIff_alt. intros x.
+  assert (E2 : In x (au d2) <-> (In x (au d) /\ ~ In x Q) \/ In x Pos).
+  { unfold au. rewrite SA, A0, A1. apply sa_allocs_au. }
+  assert (E1 : In x (cu (delete_created d2 (empty_created ks l))) <->
+               In x (cu d1) /\ ((In x Q /\ ~ In x WA) -> In x (au d2)) /\ ~ In x EC).
+  { rewrite delete_created_cu. fold EC. unfold cu at 1. rewrite CL2.
+    rewrite (in_map_filter_uuid (keepc objs (allocs d2))). rewrite keepc_iff, tc_In.
+    rewrite (cinfo_uuid _ _ CL1). fold (cu (fold_left update_consumer ks d1)). rewrite C0.
+    fold Q. fold WA. fold (au d2). tauto. }
+  change (au (delete_created d2 (empty_created ks l))) with (au d2).
+  (* every object belongs to a consumer of the request *)
+  assert (OB : forall o, In o objs -> exists k c oc, In (k, c) (combine ks l) /\ In c l /\
+                 alloc_objs d1 k (ci_allocs c) = Some oc /\ In o oc /\ q_cons o = ci_uuid c /\ co_uuid k = ci_uuid c).
+  { intros o Ho. destruct (AL1 o Ho) as (k & c & oc & H1 & H2 & H3). exists k, c, oc.
+    pose proof (Q1 _ _ H1) as [Uk _]. repeat split; auto.
+    - eapply in_combine_r; eauto.
+    - rewrite <- Uk. eapply alloc_objs_cons; eauto. }
+  assert (PQ : In x Pos -> In x Q).
+  { unfold Pos, Q. rewrite !in_map_iff. intros [o [H1 H2]]. apply filter_In in H2. exists o; tauto. }
+  assert (ECk : In x EC -> exists k c, In (k, c) (combine ks l) /\ ci_allocs c = [] /\ co_created k = true /\ co_uuid k = x).
+  { unfold EC. rewrite in_map_iff. intros [k [H1 H2]]. apply filter_In in H2. destruct H2 as [H2 H3].
+    apply empty_created_in in H2; auto. destruct H2 as [c [H4 H5]]. exists k, c. auto. }
+  destruct (in_dec Z.eq_dec x U) as [HU|HU].
+  - unfold U in HU. apply in_map_iff in HU. destruct HU as [c [Ux Hcl]].
+    destruct (in_combine_ex_r ks l c L1 Hcl) as [k Hkc].
+    pose proof (in_combine_l _ _ _ _ Hkc) as Hk.
+    pose proof (Q1 _ _ Hkc) as [Uk _]. rewrite Ux in Uk.
+    destruct (F1 k Hk) as [row [Frow _]]. rewrite Uk in Frow.
+    assert (CU1 : In x (cu d1)).
+    { apply find_cons_l_some in Frow. destruct Frow as [<- I]. unfold cu. apply in_map; auto. }
+    (* objects of x come from c *)
+    assert (SAME : forall k' c', In (k', c') (combine ks l) -> ci_uuid c' = x -> c' = c).
+    { intros k' c' H1 H2. eapply NoDup_map_inj; eauto. eapply in_combine_r; eauto. congruence. }
+    destruct (AL2 _ _ Hkc) as [oc [AO INC]].
+    destruct (ci_allocs c) as [|a la] eqn:CA.
+    + cbn [alloc_objs] in AO. injection AO as <-. rewrite Uk in INC.
+      assert (W : forall o, In o objs -> q_cons o = x -> In o (wipe_list d1 x)).
+      { intros o Ho Hx. destruct (OB o Ho) as (k' & c' & oc' & H1 & H2 & H3 & H4 & H5 & H6).
+        assert (c' = c) by (eapply SAME; eauto; congruence). subst c'.
+        rewrite CA in H3. cbn [alloc_objs] in H3. injection H3 as <-. congruence. }
+      assert (W0 : forall o, In o objs -> q_cons o = x -> q_amt o = 0).
+      { intros o Ho Hx. apply W in Ho; auto. apply wipe_list_in in Ho.
+        destruct Ho as (kk & a & r & _ & _ & _ & _ & ->). reflexivity. }
+      assert (NPos : ~ In x Pos).
+      { unfold Pos. rewrite in_map_iff. intros [o [H1 H2]]. apply filter_In in H2. destruct H2 as [H2 H3].
+        rewrite (W0 o H2 H1) in H3. discriminate. }
+      assert (NWA : ~ In x WA).
+      { unfold WA. rewrite in_map_iff. intros [o [H1 H2]]. apply filter_In in H2. destruct H2 as [H2 H3].
+        rewrite (W0 o H2 H1) in H3. discriminate. }
+      assert (QA : In x Q <-> In x (au d)).
+      { unfold Q, au. rewrite !in_map_iff. split.
+        - intros [o [H1 H2]]. apply W in H2; auto. apply wipe_list_in in H2.
+          destruct H2 as (kk & a & r & _ & Ha & Hx & _ & _). exists a. split; auto. congruence.
+        - intros [a [H1 H2]]. destruct RI0 as [RIa _]. destruct (RIa a H2) as [[r Hr] _].
+          exists (mkAreq x (c_gen row) (a_rp a) (rp_gen r) (a_rc a) 0). split; [reflexivity|].
+          apply INC. apply wipe_list_in. exists row, a, r. repeat split; auto.
+          + congruence.
+          + unfold find_rp in *. congruence. }
+      assert (ECx : In x EC <-> ~ In x (cu d)).
+      { split.
+        - intros H. destruct (ECk H) as (k' & c' & H1 & H2 & H3 & H4).
+          apply find_cons_none_cu. rewrite <- H4. apply N1; auto. eapply in_combine_l; eauto.
+        - intros H. apply find_cons_none_cu in H.
+          assert (co_created k = true).
+          { destruct (co_created k) eqn:Cr; auto. exfalso. apply (NC k Hk Cr). congruence. }
+          unfold EC. apply in_map_iff. exists k. split; auto. apply filter_In. split; auto.
+          apply empty_created_in; auto. exists c. auto. }
+      specialize (CI' x). rewrite E1, E2. tauto.
+    + cbn [alloc_objs] in AO.
+      assert (NE : oc <> []).
+      { eapply new_allocs_nonempty; eauto; [discriminate|]. intros a' Ha'. rewrite <- CA in Ha'.
+        apply (WFa c a' Hcl Ha'). }
+      destruct oc as [|o oc']; [congruence|].
+      destruct (new_allocs_in _ _ _ _ AO o (or_introl eq_refl)) as [Ho1 (a' & p & Ha' & Hp & Hamt)].
+      rewrite <- CA in Ha'. destruct (WFa c a' Hcl Ha') as [_ Hge]. specialize (Hge p Hp).
+      assert (Ho : In o objs) by (apply INC; left; auto).
+      assert (IPos : In x Pos).
+      { unfold Pos. apply in_map_iff. exists o. split; [congruence|]. apply filter_In. split; auto.
+        apply negb_true_iff, Z.eqb_neq. lia. }
+      assert (IWA : In x WA).
+      { unfold WA. apply in_map_iff. exists o. split; [congruence|]. apply filter_In. split; auto.
+        apply Z.ltb_lt. lia. }
+      assert (NEC : ~ In x EC).
+      { intros H. destruct (ECk H) as (k' & c' & H1 & H2 & H3 & H4).
+        assert (c' = c). { eapply SAME; eauto. pose proof (Q1 _ _ H1) as [Uk' _]. congruence. }
+        subst c'. congruence. }
+      rewrite E1, E2. tauto.
+  - assert (NQ : ~ In x Q).
+    { unfold Q. rewrite in_map_iff. intros [o [H1 H2]].
+      destruct (OB o H2) as (k' & c' & oc' & _ & H3 & _ & _ & H5 & _). apply HU. unfold U.
+      rewrite <- H1, H5. apply in_map; auto. }
+    assert (NEC : ~ In x EC).
+    { intros H. destruct (ECk H) as (k' & c' & H1 & _ & _ & H4). apply HU. unfold U.
+      rewrite <- M1, <- H4. apply in_map. eapply in_combine_l; eauto. }
+    assert (CUx : In x (cu d1) <-> In x (cu d)).
+    { unfold cu. rewrite X1, map_app, in_app_iff. split; auto. intros [H|H]; auto. exfalso.
+      apply in_map_iff in H. destruct H as [r [H1 H2]]. destruct (X1' r H2) as [k' [H3 [_ H4]]].
+      apply HU. unfold U. rewrite <- M1, <- H1, <- H4. apply in_map; auto. }
+    specialize (CI' x). rewrite E1, E2. tauto.
+Qed.
+End Core.
+
+Lemma post_core_consiff cf d v l txn ef d' rs :
+  (forall d0 objs d2, txn d0 objs = Ok d2 -> sa_spec d0 objs d2) ->
+  ConsIff d -> RI d -> cons_list_wf l = true ->
+  post_core cf d v l txn ef = (d', rs) -> ConsIff d'.
+Proof.
+  intros T CI RI0 WF. unfold post_core.
+  destruct (inspect_consumers cf v d [] l) as [d1 [ks|]] eqn:EI.
+  - apply inspect_some in EI. destruct EI as [ks' [-> Hc]]. cbn [rev app] in *.
+    destruct (alloc_list d1 ks' l) as [objs|] eqn:EA.
+    + destruct (txn _ objs) as [d2|e] eqn:ET; intros [= <- <-].
+      * eapply post_success; eauto.
+      * eapply ConsIff_ac; [|exact CI]. eapply chain_undo; eauto. tauto.
+    + intros [= <- <-]. eapply ConsIff_ac; [|exact CI]. eapply chain_undo; eauto. tauto.
+  - apply inspect_none in EI. destruct EI as (l1 & ks' & dm & c & dm' & Hc & He & ->). intros [= <- <-].
+    eapply ConsIff_ac; [|exact CI]. eapply chain_undo; eauto.
+    + apply ensure_none in He; auto.
+    + intros k. rewrite app_nil_r. rewrite <- in_rev. tauto.
+Qed.
+
+Lemma h_alloc_post_core cf d v l :
+  h_alloc_post cf d v l = if v <? 13 then (d, err 404 C_DEFAULT) else post_core cf d v l set_allocations alloc_err.
+Proof. reflexivity. Qed.
+
+Lemma h_reshape_core cf d v ri al :
+  h_reshape cf d v ri al =
+  if v <? 30 then (d, err 404 C_DEFAULT) else
+  match reshape_precheck d ri with
+  | Some r => (d, r)
+  | None => post_core cf d v al (fun d0 objs => reshape_txn d0 ri objs) reshape_err
+  end.
+Proof. reflexivity. Qed.
+
+Lemma cons_list_wf_single c : cons_in_wf c = true -> cons_list_wf [c] = true.
+Proof. intros H. unfold cons_list_wf. cbn. rewrite H. reflexivity. Qed.
+
+Lemma alloc_delete_consiff d c d' rs : ConsIff d -> RI d -> h_alloc_delete d c = (d', rs) -> ConsIff d'.
+Proof.
+  intros CI RI0. unfold h_alloc_delete. destruct (wipe_list d c) as [|o wl] eqn:W.
+  - intros [= <- <-]; auto.
+  - intros [= <- <-]. apply ConsIff_alt. intros x. pose proof (proj1 (ConsIff_alt d) CI x) as CIx.
+    set (d1 := set_allocs d _).
+    assert (A : In x (au d1) <-> In x (au d) /\ x <> c).
+    { unfold au, d1. cbn [allocs set_allocs]. split.
+      - intros H. apply in_map_iff in H. destruct H as [a [<- H]]. apply filter_In in H. destruct H as [H1 H2].
+        destruct RI0 as [RIa _]. destruct (RIa a H1) as [[r Hr] _]. rewrite Hr, andb_true_r in H2.
+        apply negb_true_iff, Z.eqb_neq in H2. split; auto. apply in_map; auto.
+      - intros [H N]. apply in_map_iff in H. destruct H as [a [<- H]]. apply in_map. apply filter_In. split; auto.
+        apply negb_true_iff. apply andb_false_iff. left. apply Z.eqb_neq; auto. }
+    unfold delete_consumers_if_no_allocations.
+    change (au (set_consumers d1 _)) with (au d1). unfold cu. cbn [consumers set_consumers].
+    rewrite (in_map_filter_uuid (fun u => negb (memZ u [c] && negb (existsb (fun a => a_cons a =? u) (allocs d1))))).
+    rewrite negb_true_iff, andb_false_iff, negb_false_iff, memZ_nIn, existsb_cons_au.
+    fold (au d1). change (map c_uuid (consumers d1)) with (cu d).
+    assert (S : In x [c] <-> x = c) by (cbn; intuition congruence).
+    rewrite S, A. destruct (Z.eq_dec x c); tauto.
+Qed.
+
+Lemma c12_step :
+  forall cf d r d' rs, ConsIff d -> RI d -> req_wf r = true -> step cf d r = (d', rs) -> ConsIff d'.
+Proof.
+  intros cf d r d' rs CI RI0 WF H.
+  destruct r;
+    try (eapply ConsIff_ac; [eapply simple_step_ac; [|exact H]; exact I|exact CI]);
+    cbn [step] in H; cbn [req_wf] in WF.
+  - rewrite h_alloc_put_core in H.
+    eapply post_core_consiff; eauto using set_allocations_spec, cons_list_wf_single.
+  - rewrite h_alloc_post_core in H. destruct (v <? 13).
+    + injection H as <- <-; auto.
+    + eapply post_core_consiff; eauto using set_allocations_spec.
+  - eapply alloc_delete_consiff; eauto.
+  - rewrite h_reshape_core in H. destruct (v <? 30); [injection H as <- <-; auto|].
+    destruct (reshape_precheck d ri); [injection H as <- <-; auto|].
+    apply andb_true_iff in WF. destruct WF as [_ WF].
+    eapply post_core_consiff; [| | |exact WF|exact H]; auto.
+    intros d0 objs d2. apply reshape_txn_spec.
+Qed.
+
+(* ================================================================ C12_attrs *)
+Lemma post_attrs cf v d l ks d1 objs d2 c kk :
+  cons_list_wf l = true -> chain cf v d l ks d1 ->
+  sa_spec (fold_left update_consumer ks d1) objs d2 -> In c l ->
+  find_cons (delete_created d2 (empty_created ks l)) (ci_uuid c) = Some kk ->
+  c_proj kk = req_proj cf c /\ c_user kk = req_user cf c /\ (38 <= v -> c_type kk = Some (oz (ci_type c))).
+Proof.
+  intros WF Hc [SA [cl [CL1 CL2]]] Hcl F.
+  destruct (cons_list_wf_facts _ WF) as [ND _].
+  destruct (chain_facts _ _ _ _ _ _ Hc) as (_ & _ & L1 & M1 & Q1 & _ & _ & F1).
+  apply delete_created_find in F. unfold find_cons in F. rewrite CL2 in F.
+  rewrite (find_cons_l_filter (keepc objs (allocs d2))) in F.
+  destruct (keepc objs (allocs d2) (ci_uuid c)); [|discriminate].
+  destruct (find_cons_l_cinfo _ _ _ _ CL1 F) as [r0 [F0 I0]].
+  destruct (in_combine_ex_r ks l c L1 Hcl) as [k Hkc].
+  pose proof (in_combine_l _ _ _ _ Hkc) as Hk.
+  destruct (Q1 _ _ Hkc) as (Uk & Rp & Ru & Rt).
+  assert (NDk : NoDup (map co_uuid ks)) by (rewrite M1; exact ND).
+  destruct (fold_update_attrs ks d1 NDk F1 k Hk) as [row' [F' (G1 & G2 & G3)]].
+  rewrite Uk in F'. unfold find_cons in F'. rewrite F0 in F'. injection F' as <-.
+  unfold cinfo in I0. injection I0 as _ I1 I2 I3.
+  split; [congruence|]. split; [congruence|]. intros V. rewrite <- I3. apply G3. auto.
+Qed.
+
+Lemma post_core_attrs cf d v l txn ef d' rs c kk :
+  (forall d0 objs d2, txn d0 objs = Ok d2 -> sa_spec d0 objs d2) ->
+  (forall e, 400 <= status (ef e)) ->
+  cons_list_wf l = true ->
+  post_core cf d v l txn ef = (d', rs) -> is_success rs -> In c l ->
+  find_cons d' (ci_uuid c) = Some kk ->
+  c_proj kk = req_proj cf c /\ c_user kk = req_user cf c /\ (38 <= v -> c_type kk = Some (oz (ci_type c))).
+Proof.
+  intros T EF WF. unfold post_core, is_success.
+  destruct (inspect_consumers cf v d [] l) as [d1 [ks|]] eqn:EI.
+  - apply inspect_some in EI. destruct EI as [ks' [-> Hc]]. cbn [rev app] in *.
+    destruct (alloc_list d1 ks' l) as [objs|] eqn:EA.
+    + destruct (txn _ objs) as [d2|e] eqn:ET; intros [= <- <-] S.
+      * intros Hcl F. eapply post_attrs; eauto.
+      * specialize (EF e). lia.
+    + intros [= <- <-] S. cbn in S. lia.
+  - intros [= <- <-] S. cbn in S. lia.
+Qed.
+
+Lemma alloc_err_status e : 400 <= status (alloc_err e).
+Proof. destruct e; cbn; lia. Qed.
+Lemma reshape_err_status e : 400 <= status (reshape_err e).
+Proof. destruct e; cbn; lia. Qed.
+Lemma reshape_precheck_status d ri r : reshape_precheck d ri = Some r -> 400 <= status r.
+Proof.
+  induction ri as [|x ri IH]; cbn; [discriminate|].
+  destruct (find_rp d (ri_rp x)); [|intros [= <-]; cbn; lia].
+  destruct (negb _); [intros [= <-]; cbn; lia|auto].
+Qed.
+
+Lemma c12_attrs :
+  forall cf d r d' rs c k, ConsIff d -> RI d -> req_wf r = true ->
+    step cf d r = (d', rs) -> is_success rs -> In c (req_consumers r) ->
+    find_cons d' (ci_uuid c) = Some k ->
+    c_proj k = (match ci_proj c with Some p => p | None => incomplete_proj cf end) /\
+    c_user k = (match ci_proj c with Some _ => oz (ci_user c) | None => incomplete_user cf end) /\
+    (38 <= req_version r -> c_type k = Some (oz (ci_type c))).
+Proof.
+  intros cf d r d' rs c k _ _ WF H S Hc F.
+  destruct r; cbn [req_consumers] in Hc; try (destruct Hc; fail);
+    cbn [step] in H; cbn [req_wf] in WF; cbn [req_version].
+  - rewrite h_alloc_put_core in H.
+    eapply post_core_attrs in H; eauto using set_allocations_spec, cons_list_wf_single, alloc_err_status.
+  - rewrite h_alloc_post_core in H. destruct (v <? 13).
+    + injection H as <- <-. unfold is_success in S. cbn in S. lia.
+    + eapply post_core_attrs in H; eauto using set_allocations_spec, alloc_err_status.
+  - rewrite h_reshape_core in H. destruct (v <? 30).
+    { injection H as <- <-. unfold is_success in S. cbn in S. lia. }
+    destruct (reshape_precheck d ri) eqn:P.
+    { injection H as <- <-. apply reshape_precheck_status in P. unfold is_success in S. lia. }
+    apply andb_true_iff in WF. destruct WF as [_ WF].
+    eapply post_core_attrs in H; eauto using reshape_err_status.
+    intros d0 objs d2. apply reshape_txn_spec.
+Qed.
